@@ -708,6 +708,27 @@ pub fn run(args: &Args) {
         if i < 1 { cx.sum.sample(json!({"page_cache": {"files": files.iter().map(|f| f.1).collect::<Vec<_>>(), "capbytes": capbytes, "ops": pops_json(&ops[..ops.len().min(8)])}})); }
         pc_history(&mut cx, rng.chance(1, 6), rng.below(4), capbytes, &files, &ops, false);
     }
+    // overwrite + explicit invalidation with every page resident (a cache larger than the file, so that nothing
+    // is reloaded by accident): the rewritten range sits inside a page, straddles a boundary or spans pages
+    let n_ow = if th { 1500 } else { 150 };
+    for _ in 0..n_ow {
+        let flen = *rng.pick(&[2 * ps + 100, 3 * ps + 17, 5 * ps, 4 * ps - 1]);
+        let files = vec![(rng.below(200), flen)];
+        let mut ops: Vec<POp> = vec![(0, 0, 0, flen)];
+        for _ in 0..rng.range(1, 4) {
+            let p = rng.range(1, flen / ps);
+            let (off, len) = match rng.below(4) {
+                0 => (p * ps - 1 - rng.below(60), 2 + rng.below(120)),          // straddles a page boundary, short
+                1 => (p * ps - rng.below(ps), ps + rng.below(ps)),              // spans pages
+                2 => (rng.below(flen), 1 + rng.below(200)),
+                _ => (p * ps - 1, 2),
+            };
+            ops.push((6, 0, off, len));
+            if rng.chance(1, 2) { ops.push((0, 0, 0, flen)); } else { ops.push((0, 0, off.saturating_sub(10), len + 20)); ops.push((5, 0, (off + len).saturating_sub(5), 10)); }
+        }
+        ops.push((0, 0, 0, flen));
+        pc_history(&mut cx, rng.chance(1, 5), rng.below(4), *rng.pick(&[16 * ps as usize, 64 * ps as usize]), &files, &ops, false);
+    }
     // the confirmed short-last-page witnesses, always
     pc_history(&mut cx, false, 0, 2 * ps as usize, &[(3, 2 * ps + 100)], &[(0, 0, 2 * ps, 200), (0, 0, 2 * ps - 92, 300), (0, 0, 0, 3 * ps)], true);
     // cached blob store
